@@ -405,9 +405,18 @@ func cmdRun(args []string) int {
 			"harness": shortName(h), "paths": hr.Paths, "by_status": hr.ByStatus, "decisions": hr.Decisions,
 			"queries": hr.Solver.Queries, "wall_s": hr.Wall.Seconds(), "covers": hr.Covers, "truncated": hr.Truncated,
 		})
+		nh := 0
+		for _, s := range hr.Audits {
+			if nh < 2 && len(samples) < 12 {
+				samples = append(samples, map[string]interface{}{"harness": shortName(h), "status": s.Status, "branch_decisions": shortTr(s.Trace), "covers": s.Covers,
+					"model_of_path_condition": modelOf(s), "replayed_natively": true})
+				nh++
+			}
+		}
 		for _, s := range hr.Samples {
-			if len(samples) < 6 {
-				samples = append(samples, map[string]interface{}{"harness": shortName(h), "status": s.Status, "decisions": s.Trace, "inputs": inputsOf(s)})
+			if nh < 2 && len(samples) < 12 {
+				samples = append(samples, map[string]interface{}{"harness": shortName(h), "status": s.Status, "branch_decisions": shortTr(s.Trace), "symbolic_inputs": inputsOf(s)})
+				nh++
 			}
 		}
 		// violations -> replay files (at most 3 per label)
@@ -579,6 +588,30 @@ func cmdRun(args []string) int {
 		return 2
 	}
 	return 0
+}
+
+func shortTr(t []int32) []int32 {
+	if len(t) > 48 {
+		return t[:48]
+	}
+	return t
+}
+
+// modelOf lists the symbolic inputs of a path with the values the solver gave them.
+func modelOf(r sx.PathResult) []string {
+	var out []string
+	for _, in := range r.Inputs {
+		if len(out) >= 24 {
+			out = append(out, "...")
+			break
+		}
+		if in.Kind == "len" || in.Kind == "choose" {
+			out = append(out, fmt.Sprintf("%s=%d", in.Kind, in.Len))
+		} else {
+			out = append(out, fmt.Sprintf("%s=%d", in.Name, r.Model[in.Name]))
+		}
+	}
+	return out
 }
 
 func inputsOf(r sx.PathResult) []string {
